@@ -162,6 +162,9 @@ type mvSess struct {
 	// banned namespaces (C28): Options.NamespaceOffset (-1 = off) and the namespaces banned so far
 	nsoff  int
 	banned map[uint64]bool
+	// relExp: expiry times set relative to the wall clock at execution (`set … exp=+N`): the session
+	// then follows the real clock (see clockStep) so that an entry can expire DURING the session
+	relExp []uint64
 }
 
 func (s *mvSess) close() {
@@ -228,6 +231,7 @@ func (s *mvSess) open(kv map[string]string) (string, error) {
 	vmax := kvInt(kv, "vmax", 0)      // > 0: ValueLogMaxEntries (the value log rotates after that many entries)
 	s.nsoff = kvInt(kv, "nsoff", -1)
 	s.banned = map[uint64]bool{}
+	s.relExp = nil
 	s.dir = ""
 	var opt badger.Options
 	if s.inmem {
@@ -424,6 +428,9 @@ func execMvcc(intents []string, st *Stats) (final, outs, oracle []string) {
 			continue
 		}
 		st.Inc("op:" + w[0])
+		if len(s.relExp) > 0 && w[0] != "reset" {
+			s.clockStep(emit, false)
+		}
 		switch w[0] {
 		case "reset":
 			s.close()
@@ -528,6 +535,11 @@ func execMvcc(intents []string, st *Stats) (final, outs, oracle []string) {
 			s.judgeStructure(fail)
 			s.judgeStable("close+open", pre, fail)
 			s.judgeMarks("Close+Open", fail)
+		case "sleepuntil":
+			// wait until the next pending relative expiry has passed (C33: an entry expires while
+			// the database is running)
+			emit(line, "ok")
+			s.clockStep(emit, true)
 		case "ban":
 			// ban <ns>: DB.BanNamespace. The marker key !badger!banned<ns> is written at version 1
 			// through the write channel like any entry (it is part of the stored history).
@@ -581,7 +593,17 @@ func execMvcc(intents []string, st *Stats) (final, outs, oracle []string) {
 			key, val := unhx(w[2]), unhx(w[6])
 			meta, _ := strconv.Atoi(w[3])
 			um, _ := strconv.Atoi(w[4])
-			exp := atou(w[5])
+			var exp uint64
+			if !strings.HasPrefix(w[5], "+") {
+				exp = atou(w[5])
+			} else {
+				// expiry relative to the wall clock now: the recorded line carries the absolute time
+				s.clockStep(emit, false)
+				exp = s.now + atou(w[5][1:])
+				s.relExp = append(s.relExp, exp)
+				w[5] = strconv.FormatUint(exp, 10)
+				line = strings.Join(w, " ")
+			}
 			var err error
 			sv := specVer{userMeta: byte(um), exp: exp, val: val}
 			if meta&1 != 0 {
@@ -878,6 +900,42 @@ func execMvcc(intents []string, st *Stats) (final, outs, oracle []string) {
 
 // judgeGet: C01/C04/C06/C33/C36 — a Get equals the newest committed write at or below the
 // read timestamp (own pending writes layered on top), absent when deleted or expired.
+// clockStep: sessions with relative expiry times follow the wall clock. badger compares ExpiresAt
+// with time.Now().Unix() inside each operation; the oracle and the model use s.now. No operation
+// may straddle the second in which an entry expires, so when the clock is within one second of a
+// pending expiry E (now == E-1) the session waits until E has passed; `force` waits for the next
+// pending expiry in any case (op sleepuntil). A changed clock is reported to the model as a derived
+// `now T` line.
+func (s *mvSess) clockStep(emit func(string, string), force bool) {
+	now := uint64(time.Now().Unix())
+	for _, e := range s.relExp {
+		if e > now && (force || e-now <= 1) {
+			for uint64(time.Now().Unix()) < e {
+				time.Sleep(20 * time.Millisecond)
+			}
+			now = uint64(time.Now().Unix())
+		}
+	}
+	// not in the last 100 ms of a second either: the operation must see the same second we report
+	for time.Now().Nanosecond() > 900_000_000 {
+		time.Sleep(10 * time.Millisecond)
+	}
+	now = uint64(time.Now().Unix())
+	// the guard above may have moved us into the second before an expiry
+	for _, e := range s.relExp {
+		if e > now && e-now <= 1 {
+			for uint64(time.Now().Unix()) < e {
+				time.Sleep(20 * time.Millisecond)
+			}
+			now = uint64(time.Now().Unix())
+		}
+	}
+	if now != s.now {
+		s.now = now
+		emit(fmt.Sprintf("now %d ev=1", s.now), "ok")
+	}
+}
+
 // judgeMarks (C34): in normal mode the commit watermark never reports a timestamp that has not been
 // handed out yet (doneUntil < nextTxnTs), and the read watermark never runs ahead of it.
 func (s *mvSess) judgeMarks(what string, fail func(string, string)) {
@@ -1784,6 +1842,12 @@ func genMvccSession(rng *rand.Rand, st *Stats) []string {
 		keys = append(keys, k)
 	}
 	bannedG := map[int]bool{}
+	// C33: one session in sixty lets an entry expire while the database is running (a two-second
+	// TTL relative to the wall clock at execution, then a wait for the clock to pass it)
+	ttlSession := !inmem && rng.Intn(60) == 0
+	if params["ttl"] != "" {
+		ttlSession = params["ttl"] == "1"
+	}
 	now := uint64(time.Now().Unix())
 	nextID := 1
 	var open []int
@@ -2243,6 +2307,41 @@ func genMvccSession(rng *rand.Rand, st *Stats) []string {
 			}
 			if rng.Intn(2) == 0 {
 				ops = append(ops, fmt.Sprintf("compact this=0 id=0 adj=%s", pick(rng, "0.5", "0.5", "1.5")))
+			}
+		case ttlSession && i > nops/3:
+			ttlSession = false
+			st.Inc("scenario_ttl_crossing")
+			rts := uint64(0)
+			if managed {
+				rts = math.MaxUint64
+			}
+			k := keys[rng.Intn(len(keys))]
+			k2 := append([]byte("tt"), byte(rng.Intn(3)))
+			ops = append(ops, fmt.Sprintf("begin %d 1 %d", nextID, rts),
+				fmt.Sprintf("set %d %s 0 %d +2 %s 0", nextID, hx(k), rng.Intn(256), hx(genVal())),
+				fmt.Sprintf("set %d %s 0 %d +2 %s 0", nextID, hx(k2), rng.Intn(256), hx(genVal())))
+			c := uint64(0)
+			if managed {
+				cts++
+				c = cts
+				keyMax[string(k)] = c
+				keyMax[string(k2)] = c
+			}
+			ops = append(ops, fmt.Sprintf("commit %d %d", nextID, c))
+			nextID++
+			if rng.Intn(2) == 0 {
+				ops = append(ops, "flush")
+			}
+			rd := nextID
+			nextID++
+			ops = append(ops, fmt.Sprintf("begin %d 0 %d", rd, rts), fmt.Sprintf("get %d %s", rd, hx(k)),
+				fmt.Sprintf("iter %d rev=%d all=0 prefetch=1 seek=rewind", rd, rng.Intn(2)),
+				"sleepuntil",
+				fmt.Sprintf("get %d %s", rd, hx(k)), fmt.Sprintf("get %d %s", rd, hx(k2)),
+				fmt.Sprintf("iter %d rev=%d all=%d prefetch=%d seek=rewind", rd, rng.Intn(2), rng.Intn(2), rng.Intn(2)),
+				fmt.Sprintf("discard %d", rd))
+			if rng.Intn(2) == 0 {
+				ops = append(ops, "flush", fmt.Sprintf("compact this=0 id=0 adj=%s", pick(rng, "0.5", "1.5")))
 			}
 		case r < 99 && memsz == 65536 && rng.Intn(4) == 0:
 			// C28: one transaction driven to the batch limits (maxBatchCount is about a hundred with
